@@ -17,11 +17,11 @@ PID = 'C03'
 
 def claims_fn(ctx):
     cfg, cl = ctx['cfg'], []
-    rs = [r for r in ctx['results'] if r['op'][0] in ('match', 'match_u')]
-    for r in rs:
+    rs = [r for r in ctx['results'] if r['op'][0] in ('match', 'match_u', 'extend', 'widen')]
+    for ri, r in enumerate(rs):
         uniq = r['op'][0] == 'match_u'
-        T = r['op'][1]
-        tag = 'unique' if uniq else 'plain'
+        T = r['op'][1] if r['op'][0] != 'widen' else r['T']
+        tag = ('unique' if uniq else 'plain') if r['op'][0] in ('match', 'match_u') else f"{r['op'][0]}#{ri}"
         mt = r['mt']
         # structural alignment (on the lattice objects of this run)
         class V:   # view of the matcher at the time of this result
@@ -44,7 +44,7 @@ def claims_fn(ctx):
                                z3.And(*[z3.Not(orc.adm_strict(w)) for w in orc.walks(k + 1)])))
                 if len(got) == k:
                     cl.append((f"{tag}:whole_prefix_up_to_index_is_explained", orc.adm_loose(got)))
-    if len(rs) == 2 and rs[0]['states'] is not None and rs[1]['states'] is not None:
+    if len(rs) == 2 and rs[1]['op'][0] == 'match_u' and rs[0]['states'] is not None and rs[1]['states'] is not None:
         a, b = rs
         cl.append(('unique_only_collapses_repeats', a['idx'] == b['idx'] and
                    [k for i, k in enumerate(a['states']) if i == 0 or k != a['states'][i - 1]] == list(b['states'])))
@@ -89,6 +89,13 @@ def instances(tier):
             out.append(('oneway2', ow2, dict(fam=fam, T=2, ne=False, **ALLSYM), [('loglevel', 'DEBUG'), ('match', 2), ('match_u', 2)], {}))
             out.append(('line2', g2, dict(fam=fam, T=3, ne=False, **MD), [('loglevel', 'DEBUG'), ('match', 3), ('match_u', 3)], {}))
         out.append(('oneway3', g3, dict(fam='simple_n', T=2, ne=True, **MD), [('loglevel', 'DEBUG'), ('match', 2), ('match_u', 2)], {}))
+        # the same claims for the result of an incremental extension (the prefix may have stopped early before its last observation)
+        # and of a widening call
+        for fam in ('simple', 'dist'):
+            out.append(('oneway2', ow2, dict(fam=fam, T=4, ne=False, **MD), [('match', 3), ('extend', 4)], {}))
+            out.append(('oneway2', ow2, dict(fam=fam, T=3, ne=False, **MD), [('match', 2), ('extend', 3)], {}))
+            out.append(('oneway3', g3, dict(fam=fam, T=3, ne=True, **MD), [('match', 2), ('extend', 3)], {}))
+            out.append(('line2', g2, dict(fam=fam, T=3, ne=False, width=1, **MD), [('match', 3), ('widen', 2)], {}))
         out.append(('oneway3', g3, dict(fam='simple', T=3, ne=False, **MP), [('match', 3), ('match_u', 3)], {}))
         out.append(('oneway3', g3, dict(fam='simple', T=2, ne=False, width=1, **MD), [('match', 2), ('match_u', 2)], {}))
     else:
